@@ -25,6 +25,9 @@
 
 #include "ref_edge.h"
 #include "ref_malloc.h"
+#ifdef NASA_REFINE_VERIF
+#include "ref_verif.h"
+#endif
 
 REF_FCN REF_STATUS ref_grid_create(REF_GRID *ref_grid_ptr, REF_MPI ref_mpi) {
   REF_INT group;
@@ -190,6 +193,9 @@ REF_FCN REF_STATUS ref_grid_pack(REF_GRID ref_grid) {
   ref_free(n2o);
   ref_free(o2n);
 
+#ifdef NASA_REFINE_VERIF
+  ref_verif_sync("grid_pack", ref_grid);
+#endif
   return REF_SUCCESS;
 }
 
